@@ -64,7 +64,7 @@ class MeanAggregator(Aggregator):
             return avg
 
         scale = self._np.sqrt(
-            self._np.average(self._np.square(stacked_y - avg), axis=0, weights=weights)
+            self._np.average((stacked_y - avg) ** 2, axis=0, weights=weights)
         )
 
         return {"loc": avg, "scale": scale}
